@@ -120,6 +120,7 @@ impl AtomicU32 { pub fn new(v: u32) -> (r: Self) ensures r.v == v { AtomicU32 { 
 pub struct AtomicU64 { pub v: u64 }
 impl AtomicU64 {
     pub fn new(v: u64) -> (r: Self) ensures r.v == v { AtomicU64 { v } }
+    pub fn load(&self, o: Ordering) -> (r: u64) ensures r == self.v { self.v }
     // fetch_add wraps around on overflow (std documentation)
     pub fn fetch_add(&mut self, n: u64, o: Ordering) -> (r: u64)
         ensures r == old(self).v, final(self).v == (if old(self).v + n > u64::MAX { (old(self).v + n - 0x1_0000_0000_0000_0000) as u64 } else { (old(self).v + n) as u64 })
@@ -206,6 +207,10 @@ impl<S: BitmapSlice + Send + Sync> PassthroughFs<S> {
     pub open spec fn same_handles(&self, o: &Self) -> bool {
         self.handle_map@ == o.handle_map@ && self.handle_map.cookies_view() == o.handle_map.cookies_view() && self.next_handle.v == o.next_handle.v
     }
+    // table and position records only (the allocation counter may advance)
+    pub open spec fn same_table(&self, o: &Self) -> bool {
+        self.handle_map@ == o.handle_map@ && self.handle_map.cookies_view() == o.handle_map.cookies_view()
+    }
     pub open spec fn same_modes(&self, o: &Self) -> bool { self.no_open.v == o.no_open.v && self.no_opendir.v == o.no_opendir.v }
     // syscall chains (bodies contain `unsafe` or only forward to syscalls): contract only
     #[verifier::external_body] pub fn open_inode(&self, inode: Inode, flags: i32) -> (r: io::Result<File>)
@@ -224,12 +229,18 @@ impl<S: BitmapSlice + Send + Sync> PassthroughFs<S> {
     #[verifier::external_body] pub fn do_lookup(&mut self, parent: Inode, name: &CStr) -> (r: io::Result<Entry>)
         ensures final(self).same_handles(old(self)), final(self).same_modes(old(self)),
             r is Err ==> refs_same(final(self).inode_map, old(self).inode_map),
-            r is Ok ==> forall|i: Inode| #[trigger] lookup_refs(final(self).inode_map, i) == lookup_refs(old(self).inode_map, i) + (if i == r->Ok_0.inode { 1int } else { 0int })
+            r is Ok ==> forall|i: Inode| #[trigger] lookup_refs(final(self).inode_map, i) == lookup_refs(old(self).inode_map, i) + (if i == r->Ok_0.inode { 1nat } else { 0nat })
+    { unimplemented!() }
+    // FileSystem::forget (sync_io.rs:551 -> forget_one, verified in unit `inodes`): gives back `count` references, saturating; root exempt
+    #[verifier::external_body] pub fn forget(&mut self, ctx: &Context, inode: Inode, count: u64)
+        ensures final(self).same_handles(old(self)), final(self).same_modes(old(self)),
+            forall|i: Inode| i != fuse::ROOT_ID ==> #[trigger] lookup_refs(final(self).inode_map, i) == (if i == inode { if lookup_refs(old(self).inode_map, i) >= count { (lookup_refs(old(self).inode_map, i) - count) as nat } else { 0nat } } else { lookup_refs(old(self).inode_map, i) })
     { unimplemented!() }
 }
 // number of references the client holds on inode i as recorded by the inode map (refcount of the live InodeData, 0 if none)
-pub uninterp spec fn lookup_refs(m: InodeMap, i: Inode) -> int;
-pub open spec fn refs_same(a: InodeMap, b: InodeMap) -> bool { forall|i: Inode| #[trigger] lookup_refs(a, i) == lookup_refs(b, i) }
+pub uninterp spec fn lookup_refs(m: InodeMap, i: Inode) -> nat;
+// the root is exempt: it can never be forgotten, its count is irrelevant
+pub open spec fn refs_same(a: InodeMap, b: InodeMap) -> bool { forall|i: Inode| i != fuse::ROOT_ID ==> #[trigger] lookup_refs(a, i) == lookup_refs(b, i) }
 """
 
 # Client scenarios: hand-written exec code calling the extracted functions; Verus checks the assertions against the CONTRACTS
@@ -431,7 +442,7 @@ def unit(root='/repo'):
             Fn(PTS, P, 'do_open', sig_subst=MUT,
                requires=['old(self).handles_inv()',
                          'old(self).next_handle.v < u64::MAX // ASSUMPTION no_wrap: fewer than 2^64 - 1 handles are allocated in the lifetime of the server'],
-               ensures=['r is Err ==> final(self).same_handles(old(self)) // [C15.do_open.err_no_leak] a failed open stores nothing',
+               ensures=['r is Err ==> final(self).same_table(old(self)) // [C15.do_open.err_no_leak] a failed open stores nothing',
                         '''r is Ok ==> ({ let h = old(self).next_handle.v;
                             r->Ok_0.0 == Some(h)
                             && !old(self).handle_map@.contains_key(h)                                      // distinct opens get distinct handles
@@ -439,44 +450,44 @@ def unit(root='/repo'):
                             && final(self).handle_map@[h].inode == inode && file_inode(final(self).handle_map@[h].file) == inode
                             && final(self).next_handle.v == h + 1 }) // [C15.do_open.fresh]''',
                         'final(self).handle_map.cookies_view() == old(self).handle_map.cookies_view() // [C15.do_open.cookies]',
-                        'final(self).handles_inv() // [C15.do_open.inv]',
+                        'final(self).next_handle.v >= old(self).next_handle.v // [C15.do_open.counter_monotone] handles are never handed out twice', 'final(self).handles_inv() // [C15.do_open.inv]',
                         'final(self).same_modes(old(self))'],
                props=['C15'], canary=True),
         ]),
         Group('impl<S: BitmapSlice + Send + Sync> PassthroughFs<S> {  // trait FileSystem', [
             Fn(PTS, PF, 'open', sig_subst=MUT,
                requires=['old(self).handles_inv()', 'old(self).next_handle.v < u64::MAX // ASSUMPTION no_wrap'],
-               ensures=['old(self).no_open.v ==> %s && final(self).same_handles(old(self)) // [C15.open.no_open] nothing is stored in no_open mode' % ENOSYS,
-                        'r is Err ==> final(self).same_handles(old(self)) // [C15.open.err_no_leak]',
+               ensures=['old(self).no_open.v ==> %s && final(self).same_table(old(self)) // [C15.open.no_open] nothing is stored in no_open mode' % ENOSYS,
+                        'r is Err ==> final(self).same_table(old(self)) // [C15.open.err_no_leak]',
                         '''r is Ok ==> ({ let h = old(self).next_handle.v;
                             r->Ok_0.0 == Some(h) && !old(self).handle_map@.contains_key(h)
                             && final(self).handle_map@ == old(self).handle_map@.insert(h, final(self).handle_map@[h])
                             && final(self).handle_map@[h].inode == inode && final(self).next_handle.v == h + 1 }) // [C15.open.fresh]''',
                         'final(self).handle_map.cookies_view() == old(self).handle_map.cookies_view() // [C15.open.cookies]',
-                        'final(self).handles_inv() // [C15.open.inv]', 'final(self).same_modes(old(self))'],
+                        'final(self).next_handle.v >= old(self).next_handle.v // [C15.open.counter_monotone] handles are never handed out twice', 'final(self).handles_inv() // [C15.open.inv]', 'final(self).same_modes(old(self))'],
                props=['C15'], canary=True),
             Fn(PTS, PF, 'opendir', sig_subst=MUT,
                requires=['old(self).handles_inv()', 'old(self).next_handle.v < u64::MAX // ASSUMPTION no_wrap'],
-               ensures=['old(self).no_opendir.v ==> %s && final(self).same_handles(old(self)) // [C15.opendir.no_opendir]' % ENOSYS,
-                        'r is Err ==> final(self).same_handles(old(self)) // [C15.opendir.err_no_leak]',
+               ensures=['old(self).no_opendir.v ==> %s && final(self).same_table(old(self)) // [C15.opendir.no_opendir]' % ENOSYS,
+                        'r is Err ==> final(self).same_table(old(self)) // [C15.opendir.err_no_leak]',
                         '''r is Ok ==> ({ let h = old(self).next_handle.v;
                             r->Ok_0.0 == Some(h) && !old(self).handle_map@.contains_key(h)
                             && final(self).handle_map@ == old(self).handle_map@.insert(h, final(self).handle_map@[h])
                             && final(self).handle_map@[h].inode == inode && final(self).next_handle.v == h + 1 }) // [C15.opendir.fresh]''',
                         'final(self).handle_map.cookies_view() == old(self).handle_map.cookies_view() // [C15.opendir.cookies]',
-                        'final(self).handles_inv() // [C15.opendir.inv]', 'final(self).same_modes(old(self))'],
+                        'final(self).next_handle.v >= old(self).next_handle.v // [C15.opendir.counter_monotone] handles are never handed out twice', 'final(self).handles_inv() // [C15.opendir.inv]', 'final(self).same_modes(old(self))'],
                splices=[('|tp_1|', 'closure', '|tp_1: (Option<Handle>, OpenOptions, Option<u32>)| -> (q: (Option<Handle>, OpenOptions)) ensures q.0 == tp_1.0')],
                props=['C15'], canary=True),
             Fn(PTS, PF, 'create', sig_subst=MUT,
                requires=['old(self).handles_inv()', 'old(self).next_handle.v < u64::MAX // ASSUMPTION no_wrap'],
-               ensures=['r is Err ==> final(self).same_handles(old(self)) // [C15.create.err_no_handle_leak] a failed create stores no handle',
+               ensures=['r is Err ==> final(self).same_table(old(self)) // [C15.create.err_no_handle_leak] a failed create stores no handle',
                         '''r is Ok && !old(self).no_open.v ==> ({ let h = old(self).next_handle.v;
                             r->Ok_0.1 == Some(h) && !old(self).handle_map@.contains_key(h)
                             && final(self).handle_map@ == old(self).handle_map@.insert(h, final(self).handle_map@[h])
                             && final(self).handle_map@[h].inode == r->Ok_0.0.inode && final(self).next_handle.v == h + 1 }) // [C15.create.fresh] the handle belongs to the inode of the returned entry''',
-                        'r is Ok && old(self).no_open.v ==> r->Ok_0.1 is None && final(self).same_handles(old(self)) // [C15.create.no_open] nothing is stored in no_open mode',
+                        'r is Ok && old(self).no_open.v ==> r->Ok_0.1 is None && final(self).same_table(old(self)) // [C15.create.no_open] nothing is stored in no_open mode',
                         'final(self).handle_map.cookies_view() == old(self).handle_map.cookies_view() // [C15.create.cookies]',
-                        'final(self).handles_inv() // [C15.create.inv]', 'final(self).same_modes(old(self))']
+                        'final(self).next_handle.v >= old(self).next_handle.v // [C15.create.counter_monotone] handles are never handed out twice', 'final(self).handles_inv() // [C15.create.inv]', 'final(self).same_modes(old(self))']
                        + (['r is Err ==> refs_same(final(self).inode_map, old(self).inode_map) // [C15.create.err_no_inode_leak] a failed create leaves no inode reference behind'] if CHECK_CREATE_ERR_PATHS else []),
                props=['C15'], canary=True),
             Fn(PTS, PF, 'release', sig_subst=MUT,
